@@ -22,6 +22,7 @@ import asyncio
 import binascii
 import contextlib
 import io
+import math
 import os
 from collections.abc import Awaitable, Callable
 from typing import Any
@@ -184,6 +185,11 @@ class Rec:
     def feed(self, n: int) -> None:
         self.ev.append(E("Feed", n=n))
 
+    def noise(self, who: int, n: int) -> None:
+        """n bytes that belong to no message entered the stream; who = 1: put there by the environment's peer
+        (a keep-alive), 0: by the sender under test outside of any message."""
+        self.ev.append(E("Noise", c=who, n=n))
+
     def close(self) -> None:
         self.closed = True
         self.ev.append(E("Close"))
@@ -198,7 +204,7 @@ class Rec:
         self.reading = True
         self.ev.append(E("ReadBegin", to=to))
 
-    def end(self, r: str, data: bytes = b"") -> None:
+    def end(self, r: str, data: bytes = b"", n: int = 0) -> None:
         if self.read_ahead_ok and not self.reading:
             self.ev.append(E("ReadBegin", to=0))
         self.reading = False
@@ -206,7 +212,7 @@ class Rec:
             self.rb.append(bytes(data))
             self.ev.append(E("ReadEnd", r="Msg", c=self.cid(data)))
         else:
-            self.ev.append(E("ReadEnd", r=r))
+            self.ev.append(E("ReadEnd", r=r, n=n))  # n: "Overdue" only -- ms the read had been pending
         if r == "Timeout":
             self.timeouts += 1
             if self.tmo_event is not None:
@@ -1046,3 +1052,385 @@ def run_real(coro_fn: Callable[[str], Awaitable[Any]]) -> Any:
             return asyncio.run(coro_fn(d))  # type: ignore[arg-type]
     finally:
         shutil.rmtree(d, ignore_errors=True)
+
+
+# --------------------------------------------------------------------------
+# non-message lines of the peer (keep-alives) and connections that stay idle -- virtual time
+#
+# Two families the plan language above cannot express:
+#  * a peer (the environment, not gallia code) that emits blank / whitespace-only lines now and then.  They are no
+#    messages; the recorder says so (Noise c=1) and the contract leaves open what a read reports for them.  What it
+#    does not leave open is that a read WITH a timeout ends: every timed read runs under a watchdog of
+#    OVERDUE_WATCH x its timeout (virtual time, exact) and a read that is still pending then is recorded as
+#    ReadEnd "Overdue" with the time it had been pending -- TLC decides whether that is too long.
+#  * a connection to the virtual ECU's line server, started through its own run(), that stays open while nothing is
+#    requested for a while.  Whatever the server writes while no request is being served belongs to no message
+#    (Noise c=0); the client's reads are recorded as they are.
+
+OVERDUE_WATCH = 8  # watchdog of a timed read, in multiples of its timeout (the contract's bound is smaller)
+
+
+async def _watched(rec: Rec, to_ms: int, coro: Awaitable[bytes]) -> tuple[str, bytes]:
+    """Await one read of the code under test (ReadBegin has been recorded) and record how it ends."""
+    loop = asyncio.get_running_loop()
+    t0 = loop.time()
+    task = asyncio.ensure_future(coro)
+    try:
+        if to_ms:
+            await asyncio.wait({task}, timeout=OVERDUE_WATCH * to_ms / 1000.0)
+        else:
+            await asyncio.wait({task})
+        if not task.done():
+            rec.end("Overdue", n=int(round((loop.time() - t0) * 1000)))
+            return "Overdue", b""
+        try:
+            data = task.result()
+        except asyncio.TimeoutError:
+            rec.end("Timeout")
+            return "Timeout", b""
+        except asyncio.CancelledError:
+            raise
+        except Exception as e:  # noqa: BLE001  (recorded, judged by TLC)
+            rec.note("error:" + type(e).__name__)
+            rec.end("Error")
+            return "Error", b""
+        if data:
+            rec.end("Msg", data)
+            return "Msg", data
+        rec.end("Empty")
+        return "Empty", b""
+    finally:
+        if not task.done():
+            task.cancel()
+            await asyncio.gather(task, return_exceptions=True)
+
+
+def run_noise_reader(scn: dict[str, Any]) -> dict[str, Any]:
+    """The real tcp-lines / unix-lines transport (real connect(), hand-fed stream, virtual time) against a peer that
+    sends `count` non-message lines `noise`, one every `interval` ms, optionally preceded / followed by messages.
+
+      via = "read"   the harness reads with timeout `to` ms (0: none) until end-of-stream / nothing more can come
+      via = "uds"    one UDSClient.request() over the transport (timeout `to`, no retry); the peer starts when the
+                     request is on the wire.  Every transport.read() the client makes is recorded (instance-level
+                     wrapper); what the request returns is C04's subject, not recorded here.
+    """
+    kind, via, to = scn["kind"], scn["via"], int(scn["to"])
+    line = bytes.fromhex(scn["noise"])
+    before = [bytes.fromhex(h) for h in scn.get("before", [])]
+    after = [bytes.fromhex(h) for h in scn.get("after", [])]
+    interval, count = int(scn["interval"]), int(scn["count"])
+    rec = Rec(before + after)
+    span = interval * count + int(scn.get("after_gap", 0))
+    max_reads = len(before) + len(after) + count + (span // to if to else 0) + 8
+
+    async def peer(port: FakePort) -> None:
+        for m in before:
+            rec.send(m, len(ref_encode(m)))
+            await port.feed(ref_encode(m))
+            await port.settle()
+        for _ in range(count):
+            await asyncio.sleep(interval / 1000.0)
+            rec.noise(1, len(line))
+            await port.feed(line)
+        await asyncio.sleep(int(scn.get("after_gap", 0)) / 1000.0)
+        for m in after:
+            rec.send(m, len(ref_encode(m)))
+            await port.feed(ref_encode(m))
+            await port.settle()
+        if scn.get("eof"):
+            await port.eof()
+        rec.feeder_done = True
+
+    async def reader(tr: Any) -> None:
+        errors = 0
+        for _ in range(max_reads):
+            rec.begin(to)
+            r, _d = await _watched(rec, to, tr.read(timeout=to / 1000.0 if to else None))
+            if r == "Overdue" or (r == "Empty" and rec.closed) or (r == "Timeout" and rec.feeder_done and not rec.closed):
+                return
+            if r == "Error":
+                errors += 1
+                if errors >= count + 2:
+                    return
+
+    async def main() -> None:
+        lis = streams.Listener()
+        with streams.patched_connections(lis):
+            tr = await CLS[kind].connect(FAKE_URI[kind])
+        wire = lis.wires[0]
+        port = FakePort(wire, rec)
+        if via == "read":
+            rt = asyncio.ensure_future(reader(tr))
+            await streams.settle(2)
+            ft = asyncio.ensure_future(peer(port))
+            try:
+                await rt
+            finally:
+                ft.cancel()
+                await _quiet_close(tr)
+            return
+        from gallia.services.uds.core.client import UDSClient, UDSRequestConfig
+        from gallia.services.uds.core.service import TesterPresentRequest
+
+        on_wire = asyncio.Event()
+        wire.on_out = lambda _b: on_wire.set()
+        gave_up = [False]
+        orig_read = tr.read
+
+        async def recorded_read(timeout: float | None = None, tags: list[str] | None = None) -> bytes:
+            t_ms = int(round(timeout * 1000)) if timeout else 0
+            rec.begin(t_ms)
+            r, data = await _watched(rec, t_ms, orig_read(timeout, tags))
+            if r == "Overdue":
+                gave_up[0] = True
+                raise asyncio.CancelledError()  # the observation is complete: end the request
+            if r == "Timeout":
+                raise asyncio.TimeoutError()
+            if r == "Error":
+                raise ConnectionError("recorded: read() raised")
+            return data
+
+        tr.read = recorded_read
+
+        async def peer_after_request() -> None:
+            await on_wire.wait()
+            await peer(port)
+
+        ft = asyncio.ensure_future(peer_after_request())
+        client = UDSClient(tr, timeout=to / 1000.0, max_retry=0)
+        try:
+            await client.request_unsafe(TesterPresentRequest(False), UDSRequestConfig(timeout=to / 1000.0, max_retry=0))
+            rec.note("uds-request:returned")
+        except asyncio.CancelledError:
+            if not gave_up[0]:
+                raise
+            rec.note("uds-request:given-up-by-the-watchdog")
+        except Exception as e:  # noqa: BLE001
+            rec.note("uds-request:" + type(e).__name__)
+        finally:
+            ft.cancel()
+            await _quiet_close(tr)
+
+    hang = False
+    err = io.StringIO()
+    try:
+        with contextlib.redirect_stderr(err):
+            vloop.run(main(), horizon=3600.0, real_limit=60.0)
+    except (vloop.BlockedForever, TimeoutError):
+        hang = True
+    except vloop.Stuck:
+        # the reader kept the loop busy without ever suspending: no virtual time passes, no watchdog can fire
+        rec.note("loop-busy-without-suspending")
+        hang = True
+    if hang:
+        if not rec.reading:
+            rec.begin(0)
+        rec.end("Hang")
+    return {"kind": "noise-" + kind, "ev": rec.ev, "rb": rec.rb, "tab": rec.tab, "wire": b"", "notes": rec.notes,
+            "replies": [], "outcomes": rec.outcomes()}
+
+
+class _FakeServer:
+    """What asyncio.start_server() / start_unix_server() hand out, without sockets."""
+
+    sockets: tuple[Any, ...] = ()
+
+    def __init__(self, cb: Any, limit: int) -> None:
+        self.cb = cb
+        self.limit = limit
+        self.serving = True
+        self._forever: asyncio.Future[None] | None = None
+
+    def close(self) -> None:
+        self.serving = False
+        if self._forever is not None and not self._forever.done():
+            self._forever.cancel()
+
+    def is_serving(self) -> bool:
+        return self.serving
+
+    def get_loop(self) -> asyncio.AbstractEventLoop:
+        return asyncio.get_running_loop()
+
+    async def start_serving(self) -> None:
+        self.serving = True
+
+    async def serve_forever(self) -> None:
+        self._forever = asyncio.get_running_loop().create_future()
+        await self._forever
+
+    async def wait_closed(self) -> None:
+        await asyncio.sleep(0)
+
+    async def __aenter__(self) -> "_FakeServer":
+        return self
+
+    async def __aexit__(self, *exc: Any) -> None:
+        self.close()
+        await self.wait_closed()
+
+
+class _Duplex:
+    """One in-memory connection between a client transport and the server loop: two hand-fed Wires joined back to
+    back.  Bytes travel by call_soon (they arrive in a later loop iteration, as through a socket).  The reply
+    direction (server writes -> client reads) is recorded in `rec`."""
+
+    def __init__(self, limit: int, rec: Rec) -> None:
+        self.rec = rec
+        self.c = streams.Wire()
+        self.s = streams.Wire()
+        self.s.reader = asyncio.StreamReader(limit=limit)
+        instrument_reader(self.c.reader, on_eof=rec.close)
+        loop = asyncio.get_running_loop()
+        self.c.on_out = lambda data: loop.call_soon(self.s.feed, data)
+        self.c.on_client_close = lambda: loop.call_soon(self.s.eof)
+        self.s.on_out = self._server_wrote
+        self.s.on_client_close = lambda: loop.call_soon(self.c.eof)
+
+    def _server_wrote(self, data: bytes) -> None:
+        rec = self.rec
+        if rec.open_send is not None:
+            rec.ev[rec.open_send]["n"] += len(data)  # every byte written while a reply is due belongs to it
+        else:
+            rec.noise(0, len(data))  # written although no request is being served
+        asyncio.get_running_loop().call_soon(self._deliver, data)
+
+    def _deliver(self, data: bytes) -> None:
+        if self.c.feed(data):
+            self.rec.feed(len(data))
+
+
+@contextlib.contextmanager
+def _in_memory_network(recs: list[Rec], made: list[_Duplex]) -> Any:
+    """asyncio.start_server / start_unix_server / open_connection / open_unix_connection of the harness process
+    replaced by an in-memory listener (the k-th accepted connection records into recs[k])."""
+    servers: list[_FakeServer] = []
+
+    async def start(cb: Any, *a: Any, limit: int = 2 ** 16, **kw: Any) -> _FakeServer:
+        srv = _FakeServer(cb, limit)
+        servers.append(srv)
+        return srv
+
+    async def open_(*a: Any, **kw: Any) -> tuple[asyncio.StreamReader, Any]:
+        await asyncio.sleep(0)
+        live = [s for s in servers if s.serving]
+        if not live or len(made) >= len(recs):
+            raise ConnectionRefusedError("fake: connection refused")
+        d = _Duplex(live[-1].limit, recs[len(made)])
+        made.append(d)
+        res = live[-1].cb(d.s.reader, d.s.writer)
+        if asyncio.iscoroutine(res):
+            asyncio.ensure_future(res)
+        return d.c.reader, d.c.writer
+
+    names = ("start_server", "start_unix_server", "open_connection", "open_unix_connection")
+    saved = {n: getattr(asyncio, n, None) for n in names}
+    for n, f in zip(names, (start, start, open_, open_)):
+        if saved[n] is not None:
+            setattr(asyncio, n, f)
+    try:
+        yield
+    finally:
+        for n, f in saved.items():
+            if f is not None:
+                setattr(asyncio, n, f)
+
+
+def run_idle_server(scn: dict[str, Any]) -> list[dict[str, Any]]:
+    """Real client transport(s) <-> the real server loop, started through the server transport's OWN run() (serve()
+    and whatever it starts included), on an in-memory network under virtual time; the clocks the server module
+    reads follow the virtual loop.  scn["plan"]:
+       ["R", who, [hex, ...]]  client `who` writes these requests back to back, then reads once per request
+       ["P", who, ms]          client `who` reads with a timeout of ms although it has nothing outstanding
+       ["I", ms]               nobody does anything for ms (virtual) milliseconds
+    One trace per client: the reply direction of its connection."""
+    from gallia.services.uds import server as server_mod
+    from gallia.services.uds.server import UnixUDSServerTransport
+
+    kind = scn["kind"]
+    whos = sorted({st[1] for st in scn["plan"] if st[0] in ("R", "P")})
+    reqs = {w: [bytes.fromhex(h) for st in scn["plan"] if st[0] == "R" and st[1] == w for h in st[2]] for w in whos}
+    recs = {w: Rec([echo_reply(m) for m in reqs[w]]) for w in whos}
+    owner = {bytes(m): w for w in whos for m in reqs[w]}
+    made: list[_Duplex] = []
+    read_to_ms = 5000
+
+    async def main() -> None:
+        loop = asyncio.get_running_loop()
+        # the clock the server reads ticks in 2**-20 s (about a microsecond): differences of such values are exact.
+        # With the raw float clock, code that sleeps "until the deadline" (sleep(limit - (now - since))) can be asked
+        # to sleep for less than the clock can add to its value (25.3 + 10 - 35.3 != 0) and then spins without any
+        # virtual time passing -- an artefact of virtual time, a real clock always moves on
+        tick = 2.0 ** -20
+        server_mod.time = lambda: math.floor(loop.time() / tick) * tick  # type: ignore[assignment]
+        srv = RecordingServerTransport(lambda raw: None)
+        srv.server.uneven = True  # type: ignore[attr-defined]
+
+        def on_respond() -> None:
+            raw = bytes(srv.server.current_raw)  # type: ignore[attr-defined]
+            w = owner.get(raw)
+            if w is not None:
+                _hand_over(recs[w], echo_reply(raw))
+
+        srv.server.on_respond = on_respond  # type: ignore[attr-defined]
+        srv.target = TargetURI(FAKE_URI[kind])
+        trs: dict[str, Any] = {}
+        with _in_memory_network([recs[w] for w in whos], made):
+            run_task = asyncio.ensure_future(
+                TCPUDSServerTransport.run(srv) if kind == "tcp" else UnixUDSServerTransport.run(srv))  # type: ignore[arg-type]
+            await streams.settle(4)
+            try:
+                for w in whos:
+                    trs[w] = await CLS[kind].connect(FAKE_URI[kind])
+                    await streams.settle(4)
+                for st in scn["plan"]:
+                    if st[0] == "I":
+                        await asyncio.sleep(st[1] / 1000.0)
+                        continue
+                    w = st[1]
+                    rec, tr = recs[w], trs[w]
+                    if st[0] == "P":
+                        rec.begin(int(st[2]))
+                        await _watched(rec, int(st[2]), tr.read(timeout=st[2] / 1000.0))
+                        continue
+                    try:
+                        for h in st[2]:
+                            await tr.write(bytes.fromhex(h), timeout=read_to_ms / 1000.0)
+                    except (ConnectionError, OSError, asyncio.TimeoutError) as e:
+                        rec.note("write-failed:" + type(e).__name__)
+                        break
+                    stop = False
+                    for _h in st[2]:
+                        rec.begin(read_to_ms)
+                        r, _d = await _watched(rec, read_to_ms, tr.read(timeout=read_to_ms / 1000.0))
+                        stop = stop or r != "Msg"
+                    if stop:
+                        # a tester would not go on; neither does the scenario.  The server gets the time to finish
+                        # what it is doing, so that the recorded size of every reply handed over is the final one
+                        await asyncio.sleep(1.0)
+                        break
+                    await streams.settle(6)
+                    # the exchange is over: what the server writes from now on is the reply to nothing
+                    rec.open_send = None
+            finally:
+                for tr in trs.values():
+                    await _quiet_close(tr)
+                run_task.cancel()
+                await asyncio.gather(run_task, return_exceptions=True)
+
+    real_time = server_mod.time
+    hang = False
+    try:
+        with contextlib.redirect_stderr(io.StringIO()):
+            vloop.run(main(), horizon=3600.0, real_limit=120.0)  # vloop.Stuck (nothing ever suspends): machinery
+    except (vloop.BlockedForever, TimeoutError):
+        hang = True
+    finally:
+        server_mod.time = real_time  # type: ignore[assignment]
+    out = []
+    for w, rec in recs.items():
+        if hang and rec.reading:
+            rec.end("Hang")
+        out.append({"kind": f"idle-{kind}-{w}", "ev": rec.ev, "rb": rec.rb, "tab": rec.tab, "wire": b"",
+                    "notes": rec.notes, "replies": [], "outcomes": rec.outcomes()})
+    return out
